@@ -90,10 +90,8 @@ func sizeErrKind(v pred.Val) string {
 	case pred.Sym:
 		return strings.TrimPrefix(x.Name, "*size.")
 	case pred.Term:
-		if strings.HasPrefix(x.Fn, "fmt.Errorf") && len(x.Args) > 1 {
-			if sv, ok := x.Args[1].(*pred.SliceV); ok && len(sv.Elems) > 0 {
-				return "wrap(" + sizeErrKind(sv.Elems[0].V) + ")"
-			}
+		if w := errorfWrapped(x); w != nil {
+			return "wrap(" + sizeErrKind(w) + ")"
 		}
 		return x.String()
 	case pred.Iface:
